@@ -113,43 +113,32 @@ func ruleC01ProvenanceEncrypt(c *Ctx) {
 	_, fld, _ := fieldAccess(ikCall.Call.Value)
 	c.check(isIKID(ikCall.Call.Args[0]) && fld == "ikCache", name+"/ik-lookup", u.ipos(ikCall), "IK obtained from ikCache.GetOrLoadLatest(partition.IntermediateKeyID())", "the key used to wrap DRKs is not looked up in the IK cache under the partition's IntermediateKeyID()")
 	c.check(isIKID(pkm["ID"]), name+"/parent-id", u.ipos(drr), "ParentKeyMeta.ID = partition.IntermediateKeyID()", "the record's ParentKeyMeta.ID is not the id the IK was looked up under: decrypt will look for another key")
-	// Key.EncryptedKey = WithKeyFunc(ik, func(ikBytes){ WithKeyFunc(drk, func(drkBytes){ Crypto.Encrypt(drkBytes, ikBytes) }) })
-	var wrapKey, drkFromWrap ssa.Value
-	encKeyOK := false
-	if k1, a1, ok := accessorOn(key["EncryptedKey"]); ok {
-		wrapKey = k1
-		allInstrs(a1, func(i ssa.Instruction) {
-			cv, isCall := i.(*ssa.Call)
-			if !isCall {
-				return
-			}
-			if act, isAcc := accessorAction(cv); isAcc {
-				if a2 := actionFunc(act); a2 != nil {
-					if enc := soleAEADCall(a2, "Encrypt"); enc != nil && isParamNamed(enc.Call.Args[0], a2, 0) && isParamOrCaptured(enc.Call.Args[1], a1, 0) {
-						encKeyOK = true
-						drkFromWrap = resolveCaptured(callArgs(&cv.Call)[0])
-					}
-				}
-			}
-		})
+	// symbolic values of the two ciphertext fields (independent of whether the AEAD calls are inline closures or helpers)
+	root := &symEnv{fn: f, params: map[*ssa.Parameter]*term{}}
+	tKey := symEval(key["EncryptedKey"], root, 0)
+	tData := symEval(top["Data"], root, 0)
+	c.note("C01.provenance-encrypt: Key.EncryptedKey = %s ; Data = %s", tKey, tData)
+	// Key.EncryptedKey = enc(bytes(DRK), bytes(IK)) with IK the key obtained above
+	var drkFromWrap ssa.Value
+	wrapOK := tKey.Kind == "enc" && tKey.A.keyValue() != nil && tKey.B.keyValue() != nil
+	if wrapOK {
+		drkFromWrap = tKey.A.keyValue()
+		wrapOK = ik != nil && cachedKeyBase(tKey.B.keyValue()) == ik
 	}
-	c.check(encKeyOK && wrapKey != nil && ik != nil && wrapKey == ik, name+"/wrapped-drk", u.ipos(drr), "Key.EncryptedKey = Encrypt(DRK bytes, bytes of the IK obtained above)", "Key.EncryptedKey is not the DRK encrypted under the intermediate key the record names as parent")
+	c.check(wrapOK, name+"/wrapped-drk", u.ipos(drr), "Key.EncryptedKey = "+tKey.String(), "Key.EncryptedKey is not the DRK's bytes encrypted under the bytes of the intermediate key the record names as parent: "+tKey.String())
 	// ParentKeyMeta.Created = Created() of that same key value
 	pcOK := false
 	if cv, ok := resolve(pkm["Created"]).(*ssa.Call); ok && methodNameOf(&cv.Call) == "Created" {
 		pcOK = cachedKeyBase(resolve(receiverOf(&cv.Call))) == ik || resolve(receiverOf(&cv.Call)) == ik
 	}
 	c.check(pcOK, name+"/parent-created", u.ipos(drr), "ParentKeyMeta.Created = Created() of the key whose bytes wrapped the DRK", "ParentKeyMeta.Created is not taken from the intermediate key that wrapped the DRK (e.g. the DRK's or another key's stamp): the record points at a key version that cannot unwrap it")
-	// Data = WithKeyFunc(drk, func(b){ Crypto.Encrypt(data, b) })
-	dataOK := false
+	// Data = enc(val(payload), bytes(DRK))
 	var drk ssa.Value
-	if k2, a2, ok := accessorOn(top["Data"]); ok {
-		drk = k2
-		if enc := soleAEADCall(a2, "Encrypt"); enc != nil && isParamOrCaptured(enc.Call.Args[0], f, 2) && isParamNamed(enc.Call.Args[1], a2, 0) {
-			dataOK = true
-		}
+	dataOK := tData.Kind == "enc" && tData.A.Kind == "val" && isParamOrCaptured(tData.A.V, f, 2) && tData.B.keyValue() != nil
+	if dataOK {
+		drk = tData.B.keyValue()
 	}
-	c.check(dataOK, name+"/data", u.ipos(drr), "Data = Encrypt(payload, DRK bytes)", "Data is not the caller's payload encrypted under the data row key")
+	c.check(dataOK, name+"/data", u.ipos(drr), "Data = "+tData.String(), "Data is not the caller's payload encrypted under a data row key's bytes: "+tData.String())
 	c.check(drk != nil && drkFromWrap != nil && drk == drkFromWrap, name+"/same-drk", u.ipos(drr), "the key that encrypted Data is the key stored (wrapped) in Key.EncryptedKey", "the key that encrypted the payload is not the one wrapped into the record: the record cannot be decrypted")
 	kcOK := false
 	if cv, ok := resolve(key["Created"]).(*ssa.Call); ok && methodNameOf(&cv.Call) == "Created" {
